@@ -121,6 +121,36 @@ def strings_oracle(res, seed, n):
             res.sample({"string": s, "wc": DNA_classes.wc(s)})
 
 
+def intersect_oracle(res):
+    """the designer front-end's intersect_groups on every ordered pair of codes: the result denotes exactly the common
+    bases (an error iff there is none), agrees with the compiler's own merge, and commutes with complementing"""
+    from peppercompiler.design import constraint_load
+    from peppercompiler import DNA_classes
+    grp = DNA_classes.group
+    codes = sorted(grp)
+    def inter(a, b):
+        try:
+            return constraint_load.intersect_groups(a, b)
+        except ValueError:
+            return None
+        except Exception as e:
+            return "raised %s" % type(e).__name__
+    for a, b in itertools.product(codes, repeat=2):
+        res.evaluations += 1
+        want = set(grp[a]) & set(grp[b])
+        r = inter(a, b)
+        ok = (r is None and not want) or (r in grp and set(grp[r]) == want and bool(want))
+        if ok and want:
+            ca, cb = DNA_classes.complement[a], DNA_classes.complement[b]
+            rc = inter(ca, cb)
+            ok = rc in grp and set(grp[rc]) == {COMP[x] for x in want}
+        if not ok:
+            res.violations.append({"what": "intersect_groups(%s, %s) = %r does not denote the common bases %s of the two codes (or does not commute with complementing)"
+                                           % (a, b, r, "".join(sorted(want)) or "(none: must be an error)"),
+                                   "input": {"a": a, "b": b}, "sig": "C11:intersect-function:%s%s" % (a, b),
+                                   "cmd": "python3 -c 'from peppercompiler.design.constraint_load import intersect_groups as f; print(f(%r, %r))'" % (a, b)})
+
+
 def correspondence(st, res, seed, n):
     """model `intersect` / `wcStr` on the generated table vs the live Python functions"""
     from peppercompiler.design import constraint_load
@@ -162,6 +192,7 @@ def run(st, tier, seed):
         return res
     oracle(st.tables, res)
     strings_oracle(res, seed, 300 if tier == "quick" else 20000)
+    intersect_oracle(res)
     try:
         correspondence(st, res, seed, 200 if tier == "quick" else 5000)
     except Exception as e:
